@@ -93,6 +93,8 @@ type World struct {
 	clients *clientSet
 	adv    *adversary
 	ended  bool
+	assembledDone bool
+	popMD      map[hotstuff.ID]string // the proof of possession each replica is configured with (BLS)
 	memo       map[[32]byte]memoVerdict // verification verdicts shared across replicas (Twins-style plans only)
 	async      bool   // votes are verified in background goroutines, released one at a time by the scheduler
 	driverGID  uint64
